@@ -33,6 +33,9 @@ def run_k(ctx, kres):
     # unit level: RFC4880::PBEDeriveKey against the Lean definition the independent decoder uses
     from .. import pure
     v += pure.run_group(ctx, kres, "K04-pure-pbe", "pbe", 40 if ctx.quick else 600)
+    # two processes: a PIN changed by one process stays changed whatever an older process (token loaded before the change) writes afterwards; a fresh process judges
+    from .. import gen2, ksuites
+    v += k_suite(ctx, kres, "K04-two-process-pins", [Trace("two-process-pins", gen2.c04_two_process_pins(ctx.seed))], lambda m: False, direct=ksuites.expect_login_direct, shrink_budget=0)
     return v
 
 
